@@ -127,7 +127,20 @@ def rule_product_rule(repo: Repo) -> List[Ob]:
     subst = {}
     nz = Normalizer()
     c_rf, m_rf = nz(ast.Name(id=cpart, ctx=ast.Load())), nz(ast.Name(id=mpart, ctx=ast.Load()))
-    nz = Normalizer(subst={summand: c_rf * m_rf})
+    fdefs = Defs(f.node, selfn)
+    _stack: List[str] = []
+
+    def local_cb(name):
+        # temporaries:  dc = constant_part.diff(self.param);  rec += dc * monomial_part
+        vals = fdefs.defs.get(name, [])
+        if name in (cpart, mpart, summand) or name in fdefs.params or name in _stack or len(vals) != 1 or not isinstance(vals[0], ast.expr):
+            return None
+        _stack.append(name)
+        try:
+            return nz(vals[0])
+        finally:
+            _stack.pop()
+    nz = Normalizer(subst={summand: c_rf * m_rf}, name_cb=local_cb)
     delta = next((src(x) for x in ast.walk(loop) if isinstance(x, ast.Attribute) and x.attr == "delta"), f"{selfn}.delta")
     param = next((src(x) for x in ast.walk(loop) if isinstance(x, ast.Attribute) and x.attr == "param"), f"{selfn}.param")
     dc = f"{cpart}.diff({param})"
